@@ -22,7 +22,8 @@ class Builder:
     def __init__(self, rng, p_doc=0.5, max_depth=3, kinds=None, docline=None, max_doc_lines=4,
                  mkparam=None, allow_dangling=True, allow_cpa=True, hostile_names=True, allow_blocks=True,
                  mkdoc=None, compound_generic=True, max_items=8, name_forms=False, trigger=":keyword",
-                 p_trigger=0.0, p_between=0.12, p_reuse_params=0.12):
+                 p_trigger=0.0, p_between=0.12, p_reuse_params=0.12, p_clone=0.0, clone_toggle_doc=False,
+                 class_arg_variants=False):
         self.rng = rng
         self.uid = 0
         self.p_doc = p_doc
@@ -46,6 +47,10 @@ class Builder:
         self.p_reuse_params = p_reuse_params
         self._last_params = {}
         self.unasserted_impl_names = set()
+        self.p_clone = p_clone                  # repeat an earlier command of the same list verbatim (same name!)
+        self.clone_toggle_doc = clone_toggle_doc
+        self.class_arg_variants = class_arg_variants
+        self.clones = 0
 
     # ---- small helpers
     def new_uid(self):
@@ -277,6 +282,18 @@ class Builder:
             self.unasserted_impl_names.add(impl.gt["name"])
         return it
 
+    def overload(self, m):
+        """Another declaration with the same member name and the same parameter names but other declared types."""
+        import copy
+        c = copy.deepcopy(m)
+        ntypes = len(c.gt["types"])
+        c.gt["types"] = [self.rng.choice(["float", "path", "fn", "obj"]) for _ in range(max(ntypes, 1))]
+        c.args = c.args[:2] + c.gt["types"]
+        if c.doc is not None and self.rng.random() < 0.5:
+            c.doc = None
+        self.clones += 1
+        return c
+
     def attr(self, cls):
         r = self.rng
         uid = self.new_uid()
@@ -291,14 +308,24 @@ class Builder:
         nm = self.name("Cls", uid)
         bases = [r.choice(["Base", "Other", "ns::B", f"CN{uid}ZB"]) for _ in range(r.choice([0, 0, 1, 2]))]
         body = []
+
+        def carg():
+            # the class argument of a member declaration: membership is positional, whatever is written here
+            if not self.class_arg_variants or r.random() < 0.6:
+                return nm
+            return r.choice([nm.lower(), nm.upper(), f'"{nm}"', "${cls}", "OuterN0Z", "self_type"])
         for _ in range(r.randint(0, 5)):
             c = r.random()
             if c < 0.3:
-                body.append(self.attr(nm))
+                body.append(self.attr(carg()))
             elif c < 0.6:
-                body.append(self.member(depth + 1, nm))
+                body.append(self.member(depth + 1, carg()))
+                if self.p_clone and r.random() < self.p_clone * 2:
+                    body.append(self.overload(body[-1]))
             elif c < 0.75:
-                body.append(self.member(depth + 1, nm, ctor=True))
+                body.append(self.member(depth + 1, carg(), ctor=True))
+                if self.p_clone and r.random() < self.p_clone * 2:
+                    body.append(self.overload(body[-1]))
             elif c < 0.88 and depth < self.max_depth:
                 body.append(self.klass(depth + 1))
             elif c < 0.94:
@@ -356,6 +383,22 @@ class Builder:
         fixed = []
         for it in out:
             fixed.append(it)
+        # the same command again (per-platform branches define the same function twice, the same message() is repeated ...)
+        if self.p_clone:
+            import copy
+            extra = []
+            for it in fixed:
+                if it.kind in ("function", "macro", "option", "add_test", "generic", "set", "plain") and not it.is_impl \
+                        and self.rng.random() < self.p_clone:
+                    c = copy.deepcopy(it)
+                    if self.clone_toggle_doc and self.rng.random() < 0.6:
+                        c.doc = None if c.doc is not None else [f"{{L{c.uid}.90}} doccomment of the repeated command"]
+                        if c.kind in ("generic", "plain"):
+                            c.kind = "generic" if c.doc is not None else "plain"
+                    extra.append(c)
+                    self.clones += 1
+            for c in extra:
+                fixed.insert(self.rng.randint(0, len(fixed)), c) if False else fixed.append(c)
         # "declared up front": a test/section declaration that is directly followed by another declaration has no
         # implementing definition of its own (the next declaration takes over the awaiting slot)
         for i in range(len(fixed) - 1):
